@@ -13,20 +13,41 @@ REFUSALS = (ValueError, NotImplementedError, ImportError)
 
 
 class Outcome:
-    __slots__ = ("kind", "result", "groups", "exc", "msg", "where")
+    __slots__ = ("kind", "result", "groups", "exc", "msg", "where", "origin")
 
-    def __init__(self, kind, result=None, groups=None, exc=None, msg="", where=""):
+    def __init__(self, kind, result=None, groups=None, exc=None, msg="", where="", origin=""):
         self.kind = kind  # "ok" | "refused" | "error"
         self.result = result
         self.groups = groups
         self.exc = exc
         self.msg = msg
         self.where = where  # "call" | "compute"
+        self.origin = origin  # "flox" if the exception was raised by a frame of flox itself, else the top-level package that raised it
 
     def brief(self):
         if self.kind == "ok":
             return dict(kind="ok", result=self.result, groups=self.groups)
-        return dict(kind=self.kind, exc=self.exc, msg=self.msg[:300], where=self.where)
+        return dict(kind=self.kind, exc=self.exc, msg=self.msg[:300], where=self.where, raised_in=self.origin)
+
+
+def raised_in(e):
+    """Which package raised this exception (the innermost traceback frame)."""
+    import os
+
+    tb = e.__traceback__
+    last = None
+    while tb is not None:
+        last = tb
+        tb = tb.tb_next
+    if last is None:
+        return "?"
+    fn = last.tb_frame.f_code.co_filename
+    parts = fn.replace("\\", "/").split("/")
+    if "flox" in parts and "site-packages" not in parts:
+        return "flox"
+    if "site-packages" in parts:
+        return parts[parts.index("site-packages") + 1]
+    return os.path.basename(fn)
 
 
 def reset_flox_caches():
@@ -57,9 +78,9 @@ def call_reduce(array, *by, compute=True, **kw):
             with np.errstate(all="ignore"):
                 out = flox.groupby_reduce(array, *by, **kw)
         except REFUSALS as e:
-            return Outcome("refused", exc=type(e).__name__, msg=str(e), where="call")
+            return Outcome("refused", exc=type(e).__name__, msg=str(e), where="call", origin=raised_in(e))
         except Exception as e:
-            return Outcome("error", exc=type(e).__name__, msg=str(e), where="call")
+            return Outcome("error", exc=type(e).__name__, msg=str(e), where="call", origin=raised_in(e))
         result, *groups = out
         if compute:
             try:
@@ -68,9 +89,9 @@ def call_reduce(array, *by, compute=True, **kw):
                 with np.errstate(all="ignore"):
                     result, groups = dask.compute(result, groups, scheduler="sync")
             except REFUSALS as e:
-                return Outcome("refused", exc=type(e).__name__, msg=str(e), where="compute")
+                return Outcome("refused", exc=type(e).__name__, msg=str(e), where="compute", origin=raised_in(e))
             except Exception as e:
-                return Outcome("error", exc=type(e).__name__, msg=str(e), where="compute")
+                return Outcome("error", exc=type(e).__name__, msg=str(e), where="compute", origin=raised_in(e))
         return Outcome("ok", result=np.asarray(result) if compute else result, groups=list(groups))
 
 
@@ -83,17 +104,17 @@ def call_scan(array, *by, compute=True, **kw):
             with np.errstate(all="ignore"):
                 result = flox.groupby_scan(array, *by, **kw)
         except REFUSALS as e:
-            return Outcome("refused", exc=type(e).__name__, msg=str(e), where="call")
+            return Outcome("refused", exc=type(e).__name__, msg=str(e), where="call", origin=raised_in(e))
         except Exception as e:
-            return Outcome("error", exc=type(e).__name__, msg=str(e), where="call")
+            return Outcome("error", exc=type(e).__name__, msg=str(e), where="call", origin=raised_in(e))
         if compute and hasattr(result, "compute"):
             try:
                 with np.errstate(all="ignore"):
                     result = result.compute(scheduler="sync")
             except REFUSALS as e:
-                return Outcome("refused", exc=type(e).__name__, msg=str(e), where="compute")
+                return Outcome("refused", exc=type(e).__name__, msg=str(e), where="compute", origin=raised_in(e))
             except Exception as e:
-                return Outcome("error", exc=type(e).__name__, msg=str(e), where="compute")
+                return Outcome("error", exc=type(e).__name__, msg=str(e), where="compute", origin=raised_in(e))
         return Outcome("ok", result=np.asarray(result) if compute else result)
 
 
